@@ -1,6 +1,6 @@
 """C04 — join: waits for all children, each output at its own position, zero inputs resolve at once."""
 from .. import families
-from . import joinlike, flow
+from . import joinlike, flow, c03
 
 PROPERTY = "C04"
 LEVEL = "other"
@@ -24,6 +24,7 @@ ASSUMPTIONS = [
 RULES = {
     "C04.POS": "child's Ready payload is written exactly once, to the slot of the child's own position; result container is positional",
     "C04.CNT": "counter: correct initial value, +-1 exactly once per child completion and nowhere else; Ready only under the completion test; test evaluated after any completion before Pending",
+    "C04.ONCE": "premise of the counter argument: a child is polled only while its slot says Pending and is marked Ready in the poll in which it resolves (so it is counted exactly once)",
     "C04.ZERO": "zero-length world (array, Vec) returns Ready without polling; join of () is straight-line Ready",
     "C04.EXT": "FutureExt::join(self, other) = Join::join((self, other))",
 }
@@ -41,6 +42,9 @@ def run(ctx):
             joinlike.rule_result(ctx, M, u, "C04.POS")
             joinlike.rule_cnt(ctx, M, u, "C04.CNT")
             flow.rule_integrity(ctx, u.bi, "C04.POS", u.where, ("Ready",), "the joined output")
+            with ctx.renamed({"C03.GUARD": "C04.ONCE", "C03.MARK": "C04.ONCE"}):
+                c03.rule_guard(ctx, u)
+                c03.rule_mark(ctx, u)
             if u.container in ("array", "vec"):
                 joinlike.rule_zero(ctx, M, u, "C04.ZERO", ("Ready",))
         joinlike.rule_take_util(ctx, M, "C04.POS")
